@@ -1,6 +1,7 @@
 """Source of truth for MANIFEST.json (tools/gen_manifest.py)."""
 HOOK_COMMITS = []
 ENGINES = [
+    {"name": "E4-parser", "path": "vf/props/c13.py", "serves_properties": ["C13"], "kind_free_text": "layout-edit and mutation enumerators over the real Colang parsers and RailsConfig.from_path"},
     {"name": "E4-streaming", "path": "vf/props/c18.py", "serves_properties": ["C18"], "kind_free_text": "explicit-state search over StreamingHandler states, one transition per chunk"},
     {"name": "E4-server", "path": "vf/props/c20.py", "serves_properties": ["C20"], "kind_free_text": "token-string enumerator + request-sequence BFS against the real FastAPI app"},
     {"name": "E1-v2x", "path": "vf/engines/v2x.py", "serves_properties": ["C04", "C05", "C06", "C07", "C08", "C09", "C10", "C11"],
@@ -70,5 +71,11 @@ CHECKS["C18"] = {
     "technique": "explicit-state model checking of the real StreamingHandler: search over (offset, handler field snapshot, delivered text) with one transition per next chunk, covering all 2^(n-1) chunkings of every text through the merged DAG; DAG paths replayed on a real asyncio loop",
     "text": "All texts up to the length bound over an alphabet containing the prefix/suffix/stop characters (plus realistic shapes and all their character prefixes) x 18 prefix/suffix/stop configurations x 3 delivery modes (push_chunk, LangChain callbacks, piped handler) x 2 end protocols; for each the set of delivered strings over all chunkings must be a singleton, equal `completion`, and be a reading of 'prefix and suffix removed, cut at the first stop'.",
     "note": "Trusted: the field-snapshot state abstraction (validated by replaying witness paths from scratch through the async iterator), pattern/stop configured before the first chunk; buffering mode and mid-stream set_pattern are not covered.",
+}
+CHECKS["C13"] = {
+    "engine": "E4-parser enumerators", "level": "exploration",
+    "technique": "exhaustive enumeration: every layout edit at every admissible line of every seed (generated programs + shipped .co files), every 1-character mutation / truncation of small seeds, all token strings up to k tokens, each loaded through the real parser / RailsConfig.from_path",
+    "text": "Layout: blank line, whitespace-only line, trailing spaces, trailing tab and (2.x) end-of-line comment at every admissible position singly and all at once, indentation x2 and x3, on ~320 generated programs and the shipped .co files (quick: files <= 40 lines, thorough: all 210); parsed flows must be equal modulo source positions. Errors: every prefix, deletion, duplication and substitution from 13 characters at every offset of 12 small seeds per version, all token strings of <=3 (quick) / <=4 (thorough) tokens over 26 tokens; each loaded with RailsConfig.from_path under a CPU screen + 10 s wall alarm: success or ColangParsingError naming the file, nothing else, no hang.",
+    "note": "Trusted: admissible-position rules (no edits inside multi-line strings / bracket continuations; full-line comments are statements in 2.x), comparison of `flows` only for 1.0; \\r not in the alphabet.",
 }
 NOT_APPLICABLE = {}
